@@ -142,7 +142,7 @@ def listPop (abs : Bool) (e : List Text) : List Text :=
 /-- inner symbolic push: new list and the `open` flag -/
 def listSymPush (abs : Bool) (e : List Text) (s : Text) : List Text × Bool :=
   if s == segDot then (e, true)
-  else if s == segDotDot then (listPop abs e, true)
+  else if s == segDotDot then (listPop abs (if e == [segDot] then [] else e), true)
   else if s.isEmpty && e.isEmpty then (e, false)
   else (e ++ [s], false)
 
